@@ -425,17 +425,17 @@ def csv_dialect_agreement(ctx, rule, wn, rn):
         ctx.holds(rule, w, '%s and %s use the same csv dialect (quoting, quote / escape characters, doubling)' % (wn, rn), wc)
 
 
-def t3_tsv(ctx):
+def tsv_delimiters(ctx, rule='C18.T3', pairs=(('write_tsv', 'read_tsv'), ('_write_tsv_simple', '_read_tsv_simple'))):
+    """writer / reader delimiter tables, header sniffing and csv dialect of the given pairs (shared with C10 for the metadata pair)"""
     repo = ctx.repo
-    pairs = [('write_tsv', 'read_tsv'), ('_write_tsv_simple', '_read_tsv_simple')]
     for wn, rn in pairs:
         w, r = repo.func(M, wn), repo.func(M, rn)
         wc, wd, _wh = _delims(w, repo)
         rc, rdl, rhome = _delims(r, repo)
-        csv_dialect_agreement(ctx, 'C18.T3', wn, rn)
+        csv_dialect_agreement(ctx, rule, wn, rn)
         wt, rt = _ifexp_table(wd) if wd is not None else None, _ifexp_table(rdl) if rdl is not None else None
         if not wt or not rt:
-            ctx.undecided('C18.T3', w, 'delimiter choice of %s/%s is not a two-way constant table' % (wn, rn), wc or rc)
+            ctx.undecided(rule, w, 'delimiter choice of %s/%s is not a two-way constant table' % (wn, rn), wc or rc)
             continue
         wtest, wa, wb = wt
         rtest, ra, rb = rt
@@ -443,13 +443,13 @@ def t3_tsv(ctx):
         wcmp = q.simple_compare(wtest)
         w_ok = wcmp is not None and '.tsv' in (const_value(wcmp[0]), const_value(wcmp[2])) and \
             ((wcmp[1] == '==' and wa == '\t' and wb == ',') or (wcmp[1] == '!=' and wa == ',' and wb == '\t'))
-        ctx.check(w_ok, 'C18.T3', w, wd, "%s writes tab-separated for '.tsv' and comma-separated otherwise" % wn,
+        ctx.check(w_ok, rule, w, wd, "%s writes tab-separated for '.tsv' and comma-separated otherwise" % wn,
                   "%s does not map '.tsv' -> tab / other -> comma (`%s`)" % (wn, unparse(wd)))
         # reader: sniffed symbol must be the symbol it then selects, and the table must be {tab, comma}
         rcmp = q.simple_compare(rtest)
         r_ok = rcmp is not None and rcmp[1] in ('in', 'not in') and isinstance(const_value(rcmp[0]), str) and \
             ((rcmp[1] == 'in' and const_value(rcmp[0]) == ra) or (rcmp[1] == 'not in' and const_value(rcmp[0]) == rb))
-        ctx.check(r_ok and {ra, rb} == {wa, wb}, 'C18.T3', r, rdl,
+        ctx.check(r_ok and {ra, rb} == {wa, wb}, rule, r, rdl,
                   '%s selects the delimiter it sniffs in the header, from the same table {tab, comma} as %s' % (rn, wn),
                   '%s chooses between %r and %r on `%s`, %s writes %r/%r' % (rn, ra, rb, unparse(rtest), wn, wa, wb))
         # what is sniffed: only the header line. String cells are in the property's quantifier and may contain the other delimiter,
@@ -460,14 +460,19 @@ def t3_tsv(ctx):
             st_ = unparse(sx).replace(' ', '')
             mname = q.method_name(sx) if isinstance(sx, ast.Call) else None
             if mname == 'readline' or (isinstance(sx, ast.Call) and dotted(sx.func) == 'next') or st_.endswith('.readlines()[0]') or st_.endswith('.splitlines()[0]'):
-                ctx.holds('C18.T3', rhome, '%s sniffs the delimiter in the header line only' % rn, sx)
+                ctx.holds(rule, rhome, '%s sniffs the delimiter in the header line only' % rn, sx)
             elif mname in ('read', 'read_text', 'readlines') or (isinstance(sx, ast.Call) and dotted(sx.func) in ('str', 'repr')):
-                ctx.violated('C18.T3', rhome, sx, '%s sniffs the delimiter in `%s`, which covers data rows: a comma-separated table with a tab inside a string cell is read as '
+                ctx.violated(rule, rhome, sx, '%s sniffs the delimiter in `%s`, which covers data rows: a comma-separated table with a tab inside a string cell is read as '
                              'tab-separated (rows collapse into one column)' % (rn, unparse(sx)))
             else:
-                ctx.undecided('C18.T3', rhome, 'text in which %s sniffs the delimiter not recognised' % rn, sx)
-        ctx.check(dotted(wc.func).endswith('writer') and dotted(rc.func).endswith('reader'), 'C18.T3', w, wc,
+                ctx.undecided(rule, rhome, 'text in which %s sniffs the delimiter not recognised' % rn, sx)
+        ctx.check(dotted(wc.func).endswith('writer') and dotted(rc.func).endswith('reader'), rule, w, wc,
                   'csv.writer / csv.reader pair', 'writer/reader pair mismatch')
+
+
+def t3_tsv(ctx):
+    repo = ctx.repo
+    tsv_delimiters(ctx)
     # write_tsv: None for absent fields, first_field first then sorted
     w = repo.func(M, 'write_tsv')
     gets = [c for c in q.calls_named(w, 'get') if isinstance(c.func, ast.Attribute)]
